@@ -108,6 +108,8 @@ def coq_trace(tr):
     for e in tr:
         if e[0] == "Accept":
             out.append(f"Accept {e[1]}%nat {'true' if e[2] else 'false'}")
+        elif e[0] == "FlushRet":
+            out.append("FlushRet")
         else:
             out.append(e[0])
     return "[" + "; ".join(out) + "]"
